@@ -176,7 +176,13 @@ def r2_r5(ctx: Ctx) -> None:
     if not excl:
         ctx.fail('C10.R2', f, 'skip:none', 'merchants tagged income/transfer/investment are not excluded from views', lp)
     else:
-        ok = len(g) == 1 and all((not tr) and f"{data}.get('tags'" in t for t, tr in excl)
+        # the argument is this merchant's own tags: by provenance (`data.get('tags', [])`, possibly through a local), not by spelling
+        own = True
+        for atom, _tr in cfg.guard_atoms(fl.stmt_of(grp[0])):
+            if isinstance(atom, ast.Call) and call_name(atom) == 'is_excluded_from_spending' and atom.args:
+                at_ = fl.atoms(atom.args[0], fl.stmt_of(grp[0]))
+                own = own and f'loopvar:{data}' in at_ and f'key:{data}:tags' in at_
+        ok = len(g) == 1 and all(not tr for t, tr in excl) and own
         ctx.check(ok, 'C10.R2', f, 'skip', 'the only skip: is_excluded_from_spending(this merchant\'s tags)',
                   f'merchant reaches the views under {sorted(g)}: view membership depends on something other than the filter and the special tags', fl.stmt_of(grp[0]))
     for s in [s for s in cfg.stmts() if isinstance(s, ast.Break) and [a for a in ancestors(s) if isinstance(a, (ast.For, ast.While))][0] is lp]:
